@@ -15,7 +15,7 @@ run_demo () {   # $1 = tree
   case "$DEMO" in
     *.cpp) CMD=$(grep -m1 -oE "(g\+\+|clang\+\+)[^&]*demo\.cpp[^&]*" "$DEMO" | head -1); [ -z "$CMD" ] && CMD="g++ -std=c++17 -I source/include demo.cpp -o demo"
            ( cd "$1" && cp "$DEMO" demo.cpp && eval "$CMD" 2>&1 | tail -3 && ./demo > /dev/null 2>demo.err; echo "demo exit=$?"; tail -2 demo.err | cut -c1-300; rm -f demo demo.cpp demo.err ) ;;
-    *.sh)  ( cd "$1" && cp "$DEMO" demo.sh && bash demo.sh > /dev/null 2>demo.err; echo "demo exit=$?"; tail -2 demo.err | cut -c1-300; rm -f demo.sh demo.err ) ;;
+    *.sh)  ( cd "$1" && cp "$SRC"/demo* . && bash demo.sh > /dev/null 2>demo.err; echo "demo exit=$?"; tail -2 demo.err | cut -c1-300; rm -f demo.sh demo_* demo.err ) ;;
     *.py)  ( cd "$1" && cp "$DEMO" demo.py && python3 demo.py > /dev/null 2>demo.err; echo "demo exit=$?"; tail -2 demo.err | cut -c1-300; rm -f demo.py demo.err ) ;;
   esac
 }
